@@ -166,8 +166,15 @@ func (tv *templateVerdict) ok() bool {
 // checkModel runs the whole E1→E3→E2 pipeline on a finished model and
 // compares rule number ri (index into m.rules) with the oracle.
 func checkModel(r *Repo, ti *tmplInfo, rg *region, m *model, ri int, name string) *templateVerdict {
+	return checkModelEm(r, ti, m, ri, name, m.run(rg))
+}
+
+// checkModelEm compares rule number ri of an emission with the oracle's
+// outcomes for rule ri of model m. The emission is the emitter's output for m
+// itself (checkModel) or what the whole of Compile printed for the same
+// grammar given through the builder API (R-whole-semantics).
+func checkModelEm(r *Repo, ti *tmplInfo, m *model, ri int, name string, em *emission) *templateVerdict {
 	tv := &templateVerdict{Name: name}
-	em := m.run(rg)
 	tv.em = em
 	tv.Contracts, tv.Warnings, tv.ChildUses, tv.PD = em.Contracts, em.Warnings, em.ChildUses, em.Flags
 	if em.Err != "" {
